@@ -54,6 +54,65 @@ pub const RUST_KEYWORDS: &[&str] = &[
     "macro", "override", "priv", "typeof", "unsized", "virtual", "yield", "try", "gen", "union", "macro_rules", "raw", "safe",
 ];
 
+/// usable as a definition name in Candid source (identifier, not a Candid keyword or boolean literal)
+fn is_def_name(s: &str) -> bool {
+    !s.is_empty()
+        && !CANDID_KEYWORDS.contains(&s)
+        && s != "true"
+        && s != "false"
+        && s.chars().all(|c| c.is_ascii_alphanumeric() || c == '_')
+        && !s.chars().next().unwrap().is_ascii_digit()
+}
+
+/// One or two small programs per shape class; part of both tiers.
+pub fn sentinels() -> Vec<Prog> {
+    let rx = || rec(vec![("x", nat())]);
+    let ry = || rec(vec![("y", text())]);
+    vec![
+        // path names meeting after case conversion
+        prog(vec![("a_b", rec(vec![("c", rx())])), ("a", rec(vec![("b_c", ry())]))], None),
+        prog(vec![("a_b", rec(vec![("c", rx())])), ("a", rec(vec![("b_c", ry())]))], actor_using(&["a", "a_b"])),
+        prog(vec![("a_inner", ry()), ("a", PTy::opt(rx()))], None),
+        prog(vec![("aB", rx()), ("a_b", ry())], None),
+        prog(vec![("a", nat()), ("A", text())], actor_using(&["a", "A"])),
+        prog(vec![("r", rec(vec![("a_b", nat()), ("aB", text())]))], None),
+        prog(vec![("w", var(vec![("a", p(Prim::Null)), ("A", text())]))], None),
+        prog(vec![], Some(PActor::Service(serv(vec![("a_b", func(vec![rx()], vec![], vec![])), ("aB", func(vec![ry()], vec![], vec![]))])))),
+        // labels
+        prog(vec![("d", PTy::Record(vec![(PLabel::Id(1), nat())]))], None),
+        prog(vec![("d", PTy::Variant(vec![(PLabel::Id(0), nat()), (PLabel::Id(1), p(Prim::Null))]))], actor_using(&["d"])),
+        prog(vec![("d", tuple(vec![nat()]))], None),
+        prog(vec![("d", var(vec![("u", tuple(vec![nat()])), ("t", tuple(vec![nat(), text()]))]))], None),
+        prog(vec![("d", rec(vec![("", nat())]))], None),
+        prog(vec![("d", rec(vec![("é", nat()), ("a b", text())]))], actor_using(&["d"])),
+        prog(vec![("r", PTy::Record(vec![(PLabel::Id(5), nat()), (l("_5_"), text())]))], None),
+        prog(vec![("d", serv(vec![("a\"b", func(vec![nat()], vec![], vec![]))]))], None),
+        prog(vec![("d", serv(vec![("a b", func(vec![nat()], vec![], vec![Mode::Query]))]))], actor_using(&["d"])),
+        // keywords
+        prog(vec![("d", rec(vec![("self", nat()), ("type", text()), ("fn", nat()), ("crate", nat())]))], actor_using(&["d"])),
+        prog(vec![("d", var(vec![("self", p(Prim::Null)), ("Self", nat()), ("super", text())]))], None),
+        prog(vec![("self", rx()), ("Self", PTy::opt(v("self"))), ("crate", PTy::vec(v("Self")))], actor_using(&["crate"])),
+        prog(vec![("d", rec(vec![("self", nat()), ("Self", text())]))], None),
+        // recursion
+        prog(vec![("list", PTy::opt(rec(vec![("head", nat()), ("tail", v("list"))])))], actor_using(&["list"])),
+        prog(vec![("tree", var(vec![("leaf", nat()), ("node", rec(vec![("l", v("tree")), ("r", v("tree"))]))]))], actor_using(&["tree"])),
+        prog(vec![("a", rec(vec![("b", PTy::opt(v("b")))])), ("b", var(vec![("a", v("a")), ("z", p(Prim::Null))]))], actor_using(&["a"])),
+        prog(vec![("t", rec(vec![("kids", PTy::vec(v("t")))]))], None),
+        prog(vec![("a", rec(vec![("next", v("a"))]))], None),
+        prog(vec![("a", var(vec![("Ok", v("a")), ("Err", text())]))], None),
+        prog(vec![("f", func(vec![v("f")], vec![PTy::opt(v("f"))], vec![])), ("s", serv(vec![("next", func(vec![], vec![v("s")], vec![Mode::Query])), ("f", v("f"))]))], Some(PActor::Service(v("s")))),
+        // Result, blob, prims, tuples, empty
+        prog(vec![("r", var(vec![("Ok", rx()), ("Err", var(vec![("e", text())]))])), ("m", var(vec![("ok", nat()), ("err", text())]))], actor_using(&["r", "m"])),
+        prog(vec![("d", rec(vec![("b", PTy::Blob), ("ob", PTy::opt(PTy::Blob)), ("t", tuple(vec![nat(), PTy::Blob])), ("e", PTy::Record(vec![])), ("w", PTy::Variant(vec![]))]))], actor_using(&["d"])),
+        prog(vec![("d", PTy::Record(Prim::ALL.iter().enumerate().map(|(i, pr)| (l(&format!("f{i}")), p(*pr))).collect()))], actor_using(&["d"])),
+        // names the emitted text itself relies on
+        prog(vec![("String", nat()), ("user", rec(vec![("t", text()), ("s", v("String"))]))], actor_using(&["user"])),
+        prog(vec![("Principal", rx())], None),
+        prog(vec![("Option", rx()), ("user", rec(vec![("o", PTy::opt(nat()))]))], None),
+        prog(vec![("Err", serv(vec![("next", func(vec![], vec![v("Err")], vec![]))]))], Some(PActor::Service(v("Err")))),
+    ]
+}
+
 pub struct Fam {
     pub family: &'static str,
     pub prog: Prog,
@@ -178,7 +237,7 @@ fn keywords(all: bool) -> Vec<Prog> {
         }
         for s in spell {
             let s = s.as_str();
-            if !CANDID_KEYWORDS.contains(&s) && s.chars().all(|c| c.is_ascii_alphanumeric() || c == '_') {
+            if is_def_name(s) {
                 // definition name (record and alias), used by an actor
                 out.push(prog(vec![(s, rec(vec![("x", nat())]))], actor_using(&[s])));
                 out.push(prog(vec![(s, PTy::opt(nat())), ("user", rec(vec![("f", v(s))]))], None));
@@ -352,7 +411,10 @@ fn prims_and_shapes() -> Vec<Prog> {
 /// definitions whose Rust name meets a name the emitted code itself relies on
 fn shadowing() -> Vec<Prog> {
     let mut out = vec![];
-    for n in ["string", "vec", "option", "box", "result", "principal", "candid_type", "deserialize", "ok", "err", "some", "none", "String", "Vec", "Option", "Box", "Result", "Principal", "CandidType", "Deserialize", "candid", "serde_bytes", "std", "u8", "i32", "bool_", "f64", "Nat", "Int", "Reserved", "Empty", "byte_buf", "Func", "Service"] {
+    for n in ["string", "vec_", "Vec", "option", "box", "result", "principal_", "candid_type", "deserialize", "ok", "err", "some", "none", "String", "Vec", "Option", "Box", "Result", "Principal", "CandidType", "Deserialize", "candid", "serde_bytes", "std", "u8", "i32", "bool_", "f64", "Nat", "Int", "Reserved", "Empty", "byte_buf", "Func", "Service"] {
+        if !is_def_name(n) {
+            continue;
+        }
         out.push(prog(vec![(n, rec(vec![("t", text()), ("o", PTy::opt(nat())), ("v", PTy::vec(nat())), ("p", p(Prim::Principal)), ("b", PTy::Blob)]))], None));
         out.push(prog(vec![(n, nat()), ("user", rec(vec![("f", v(n)), ("t", text()), ("o", PTy::opt(v(n)))]))], actor_using(&["user"])));
     }
